@@ -1,4 +1,4 @@
-use vh::ctx::{Ctx, Tier};
+use vutil::ctx::{Ctx, Tier};
 
 fn arg(args: &[String], name: &str) -> Option<String> {
     args.iter().position(|a| a == name).and_then(|i| args.get(i + 1).cloned())
@@ -6,11 +6,7 @@ fn arg(args: &[String], name: &str) -> Option<String> {
 
 fn main() {
     let args: Vec<String> = std::env::args().collect();
-    if args.len() < 2 {
-        eprintln!("usage: va <C09|C10|C11|C15|C16> [--seed N] [--tier quick|thorough] [--shard i/n] [--out file] [--type substr] [--build label]");
-        std::process::exit(2);
-    }
-    let prop = args[1].clone();
+    let prop = args.get(1).cloned().unwrap_or_else(|| "C16".into());
     let seed: u64 = arg(&args, "--seed").and_then(|s| s.parse().ok()).unwrap_or(1);
     let tier = match arg(&args, "--tier").as_deref() {
         Some("thorough") => Tier::Thorough,
@@ -22,21 +18,15 @@ fn main() {
             Some((it.next()?.parse().ok()?, it.next()?.parse().ok()?))
         })
         .unwrap_or((0usize, 1usize));
-    let build = arg(&args, "--build").unwrap_or_else(|| if cfg!(debug_assertions) { "debug".into() } else { "release".into() });
+    let build = arg(&args, "--build").unwrap_or_else(|| "release".into());
     if std::env::var("VH_LOUD_PANICS").is_err() {
-        vcore::util::silence_panics();
+        vutil::util::silence_panics();
     }
     let mut ctx = Ctx::new(&prop, seed, tier, shard, nshards, &build);
-    ctx.type_filter = arg(&args, "--type");
     let t0 = std::time::Instant::now();
-    match prop.as_str() {
-        "C09" => vabi::c09::run(&mut ctx),
-        "C10" => vabi::c10::run(&mut ctx),
-        "C15" => vabi::c15::run(&mut ctx),
-        _ => ctx.inconclusive(format!("unknown property {}", prop)),
-    }
+    vconc::run(&mut ctx);
     let mut rep = ctx.report();
-    rep.push("wall_ms", vcore::util::J::i(t0.elapsed().as_millis() as u64));
+    rep.push("wall_ms", vutil::util::J::i(t0.elapsed().as_millis() as u64));
     let text = rep.render();
     match arg(&args, "--out") {
         Some(p) => std::fs::write(p, text).expect("write report"),
